@@ -194,6 +194,10 @@ func serializeInteger(buf *bytes.Buffer, s string) {
 
 func serializeFloat(buf *bytes.Buffer, s string) {
 	buf.Write([]byte{91, 70, 93})
+	if s == "-0" {
+		// 0.0 and -0.0 are equal values and must have the same key
+		s = "0"
+	}
 	buf.WriteString(s)
 }
 
